@@ -12,14 +12,16 @@
 EXTENDS Sequences, Naturals, FiniteSets
 
 \* tampering kinds and whether they make the file differ from the snapshot
-\*   flip      one byte at position pos replaced by a different value   (size unchanged)
+\*   flip      one byte at position pos replaced by a different value   (size unchanged, mtime reset
+\*             to the value the restore had set = the snapshot's mtime)
+\*   flipnow   like flip, but the mtime is left at the time of the change
 \*   truncate  file cut to length len                                   (differs iff len < size)
 \*   extend    len bytes appended (zeros or data)                       (differs iff len > 0)
 \*   remove    file deleted
 \*   touch     only the modification time changed                       (does not differ)
 \*   rewrite   identical bytes written again                            (does not differ)
 Differs(m) ==
-  CASE m.kind = "flip"     -> m.pos < m.size
+  CASE m.kind \in {"flip", "flipnow"} -> m.pos < m.size
     [] m.kind = "truncate" -> m.len < m.size
     [] m.kind = "extend"   -> m.len > 0
     [] m.kind = "remove"   -> TRUE
@@ -36,6 +38,7 @@ Expected(r) == {r.muts[i].file : i \in {j \in DOMAIN r.muts : Differs(r.muts[j])
 \*  r.collect_err the collecting run itself returned an error (it must not: all errors were swallowed)
 \*  r.failfast_err the default (abort on first error) run returned an error
 \*  r.differs_actual  files whose bytes really differ from the snapshot (harness byte comparison)
+\* The demand does not depend on r.overwrite (the --overwrite mode the restore ran with).
 RecOK(r) ==
   /\ SetOf(r.differs_actual) = Expected(r)           \* the harness applied what the spec describes
   /\ SetOf(r.reported) = Expected(r)                 \* exactly the differing files are reported
